@@ -70,6 +70,8 @@ func verifPrePassLemmas(data string) {
 	}
 	// lines: what the lexer takes for lines - a line feed or a carriage return ends one (CR LF gives an empty
 	// line in between, on both sides alike)
+	// (a CR LF gives an empty line between the two on both sides alike: the lemmas are tied to an implementation that
+	// keeps the CR of a CR LF; one that drops it would have to be given the corresponding reading of "line" here)
 	dl := strings.Split(strings.ReplaceAll(data, "\r", "\n"), "\n")
 	cl := strings.Split(strings.ReplaceAll(cleaned, "\r", "\n"), "\n")
 	zzverif.Assert(len(cl) <= len(dl), "no-line-added")
